@@ -373,6 +373,72 @@ def sparse_compare(rep, RP, w, X, thr, mv, rp, R, miss, **kw):
     rep.case()
 
 
+
+# ------------------------------------------------------------------ parallel driver (shared with c07)
+
+_JOB = {}
+
+
+def _pool_work(chunk):
+    rep = Report(_JOB["prop"], _JOB["args"], "", "")
+    for w in chunk:
+        try:
+            _JOB["run"](rep, _JOB["ctx"], w)
+        except Exception as e:                                   # noqa: BLE001
+            rep.fail("harness/exception", w, f"{type(e).__name__}: {e}")
+    return (rep.evaluations, rep.nontrivial, rep.samples, rep.failures, rep.by_check, rep.nfail, rep.skipped)
+
+
+def merge(rep, res):
+    ev, nt, samples, failures, by_check, nfail, skipped = res
+    rep.evaluations += ev
+    rep.nontrivial |= nt
+    for s_ in samples:
+        if len(rep.samples) < 8:
+            rep.samples.append(s_)
+    for f in failures:
+        have = sum(1 for g in rep.failures if g["check"] == f["check"])
+        if have < 3 and len(rep.failures) < rep.MAX_FAIL:
+            rep.failures.append(f)
+    for k, v in by_check.items():
+        rep.by_check[k] = rep.by_check.get(k, 0) + v
+    rep.nfail += nfail
+    for t in skipped:
+        rep.skip(t)
+
+
+def run_all(rep, prop, args, ctx, run, gen, workers, chunk=48):
+    """Evaluate run(rep, ctx, w) for every witness of `gen`, on `workers` forked processes."""
+    _JOB.update(prop=prop, args=args, ctx=ctx, run=run)
+
+    def chunks():
+        buf = []
+        for w in gen:
+            buf.append(w)
+            if len(buf) >= chunk:
+                yield buf
+                buf = []
+        if buf:
+            yield buf
+
+    if workers <= 1:
+        for c in chunks():
+            merge(rep, _pool_work(c))
+        return
+    import multiprocessing as mp
+    with mp.get_context("fork").Pool(workers) as pool:
+        for res in pool.imap(_pool_work, chunks()):
+            merge(rep, res)
+
+
+def n_workers():
+    import os
+    try:
+        avail = len(os.sched_getaffinity(0))
+    except Exception:                                            # noqa: BLE001
+        avail = os.cpu_count() or 1
+    return max(1, min(8, avail, int(os.environ.get("VERIF_WORKERS", "8"))))
+
 # ------------------------------------------------------------------ enumeration
 
 def sym_unit_matrices(n):
@@ -536,11 +602,7 @@ def main(argv=None):
              "scans one triangle and doubles it, which is only a run-length count of the whole "
              "matrix when R is symmetric; diagonal clauses are evaluated on symmetric R only")
     rep.skip("white_vertline_dist in sequential mode: not offered by the library (needs R)")
-    for w in cases(args.tier, args.seed):
-        try:
-            run_case(rep, RP, w)
-        except Exception as e:                                   # noqa: BLE001
-            rep.fail("harness/exception", w, f"{type(e).__name__}: {e}")
+    run_all(rep, PROP, args, RP, run_case, cases(args.tier, args.seed), n_workers())
     rep.finish()
 
 
